@@ -194,10 +194,16 @@ def run(chk: Check) -> None:
            'the nested-future test recognises every asyncio future (futures.Future is asyncio.Future itself)' if okf else
            'futures.Future is no longer asyncio.Future itself: the nested-future test of the mirror misses loop futures that are not instances of the new class',
            kind='loop-future-is-asyncio-future', expr='Future')
-    rc = prog.func('processes.Process._schedule_rpc.run_callback')
-    loops = [n for n in ast.walk(rc.node) if isinstance(n, ast.While) and 'isfuture(result)' in norm(n.test)]
-    ok = bool(loops) and any(isinstance(s, ast.Assign) and norm(s.targets[0]) == 'result' and isinstance(s.value, ast.Await)
-                             and norm(s.value.value) == 'result' for s in loops[0].body)
+    rc = prog.view(prog.func('processes.Process._schedule_rpc.run_callback'))
+    # ``while isfuture(x): x = await x`` on the very variable that is then set as the reply (whatever it is called, helper inlined)
+    ok = False
+    for w_ in [n for n in ast.walk(rc.node) if isinstance(n, ast.While)]:
+        t_ = w_.test
+        if isinstance(t_, ast.Call) and last_name(t_) == 'isfuture' and len(t_.args) == 1 and isinstance(t_.args[0], ast.Name):
+            x_ = t_.args[0].id
+            awaited = any(isinstance(s, ast.Assign) and norm(s.targets[0]) == x_ and isinstance(s.value, ast.Await) and norm(s.value.value) == x_ for s in w_.body)
+            replied = any(isinstance(c, ast.Call) and last_name(c) == 'set_result' and [norm(a) for a in c.args] == [x_] for c in ast.walk(rc.node))
+            ok = ok or (awaited and replied)
     chk.ob('FUT-unwrap', rc, ok, 'a control call returning a future (deferred kill / pause) is awaited to its final value before replying',
            kind='await-nested')
     outer = prog.func('processes.Process._schedule_rpc')
@@ -212,6 +218,8 @@ def run(chk: Check) -> None:
     run_f = prog.func('futures.CancellableAction.run')
     ff = chk.ctx.facts.analyse(run_f)
     acts = [c for c in calls_in_func(run_f) if norm(c.func) == 'self._action']
+    # (the action kept in some other shape -- an element of a tuple, a field of a holder -- is not something these rules can read: say so rather than judge)
+    chk.need(bool(acts) or not any('_action' in norm(c.func) for c in calls_in_func(run_f)), 'CancellableAction.run no longer calls self._action as such: the run-once rules cannot be translated')
     chk.ob('FUT-run-once', run_f, len(acts) == 1, 'the action is called at one site', kind='single-call-site')
     if acts:
         ok = all(pending(fs, 'self') for _, fs in ff.site_facts(acts[0]))
